@@ -1106,7 +1106,9 @@ def oracle_c06(ctx, focus):
 # ------------------------------------------------------------------------------------------------
 # C07: scanner and validator agree
 
-GLUE = [" ", "-", "\u2010", "\u2011", "\u2013", "\u2014", "\u00b7", "/", "'", ",", "\u00ad", "\u200b", "_", "\u2027", "  ", "\t"]
+GLUE = [" ", "-", "\u2010", "\u2011", "\u2013", "\u2014", "\u00b7", "/", "'", ",", "\u00ad", "\u200b", "_", "\u2027", "  ", "\t",
+        "--", "---", "- -", ",,", "..", "''"]
+GLUE += [c * k for c in _srcmine.special_chars() for k in (1, 2, 3) if c * k not in GLUE]
 
 
 def oracle_c07(ctx, focus):
@@ -1772,6 +1774,11 @@ def oracle_c14(ctx, focus):
             if re.search(r"\b(dbg!|println!|eprintln!|print!|eprint!)|io::stdout|io::stderr", st):
                 suspects.append("%s:%d: %s" % (os.path.relpath(p, t2nlib.REPO), ln, st[:100]))
             if re.search(r"\bunsafe\b|static mut|RefCell|\bCell<|Mutex|RwLock|Atomic[A-Z]|thread_local!|lazy_static|OnceCell|OnceLock", st):
+                suspects.append("%s:%d: %s" % (os.path.relpath(p, t2nlib.REPO), ln, st[:100]))
+            # code conditional on the verification cfg (other than the hook module itself) or on the build profile: the
+            # library a user compiles would not be the library the harness exercises
+            if re.search(r"text2num_verif|debug_assertions|cfg!\(|cfg\(\s*(not|any|all|feature|target|panic|overflow)", st) \
+                    and not re.fullmatch(r"#\[cfg\(text2num_verif\)\]", st):
                 suspects.append("%s:%d: %s" % (os.path.relpath(p, t2nlib.REPO), ln, st[:100]))
             # ambient inputs: anything that lets a result depend on something other than the arguments (clock, environment,
             # files, network, process, thread identity, randomised hashing, addresses)
